@@ -1,5 +1,5 @@
 WRAP_SYMS := malloc calloc realloc free posix_memalign mmap munmap mprotect mlock munlock madvise \
   sysconf raise abort __assert_fail getrandom getentropy open read close fstat fcntl poll \
-  gettimeofday getpid nanosleep pthread_mutex_lock pthread_mutex_trylock pthread_mutex_unlock pthread_mutex_timedlock getrlimit setrlimit sigaction umask pthread_key_create pthread_atfork \
+  gettimeofday getpid nanosleep pthread_mutex_lock pthread_mutex_trylock pthread_mutex_unlock pthread_mutex_timedlock getrlimit setrlimit sigaction umask pthread_key_create pthread_atfork pthread_sigmask sigprocmask \
   time clock_gettime arc4random arc4random_buf rand random
 WRAP_LDFLAGS := $(foreach s,$(WRAP_SYMS),-Wl,--wrap=$(s))
